@@ -14,6 +14,9 @@
 //	   few-instruction window between a worker's receive and its Combine is hit; judged here, failing rounds
 //	   and two passing ones are forwarded in compact form (n instead of the input)
 //
+//	4  the sum monoid over REFERENCE-typed accumulators whose Combine updates its left operand in place (every
+//	   Empty() a fresh one); preloaded input, real scheduler
+//
 // With VERIF_CASES=<file> (JSON lines: monoid, par, mode, input) exactly those cases are run.
 package c10
 
@@ -140,7 +143,44 @@ func patience() time.Duration {
 	return 15 * time.Second
 }
 
+// a monoid whose elements are references and whose Combine updates its LEFT operand in place (a legitimate way to
+// write an accumulating monoid: big numbers, bags, buffers): every Empty() is a fresh accumulator
+type cell struct{ v int }
+type cellSum struct{}
+
+func (cellSum) Empty() *cell { return &cell{} }
+func (cellSum) Combine(a, b *cell) *cell {
+	a.v = addChecked(a.v, b.v)
+	return a
+}
+
 func runFork(t *testing.T, c *Case, rng *rand.Rand) {
+	if c.Mode == 4 {
+		cells := make([]*cell, len(c.Input))
+		for i, x := range c.Input {
+			cells[i] = &cell{v: x}
+		}
+		ctx, cancel := context.WithCancel(context.Background())
+		out := fork.Fold[*cell](ctx, c.Par, pipe.Seq(cells...), cellSum{})
+		c.Observed = []int{}
+		for len(c.Observed) < 4 {
+			select {
+			case v, ok := <-out:
+				if !ok {
+					c.Closed = true
+					cancel()
+					return
+				}
+				c.Observed = append(c.Observed, v.v)
+				continue
+			case <-time.After(patience()):
+				timeouts++
+			}
+			break
+		}
+		cancel()
+		return
+	}
 	m := mk(c.Monoid)
 	switch c.Mode {
 	case 0:
@@ -326,6 +366,18 @@ func TestC10(t *testing.T) {
 	runtime.GOMAXPROCS(runtime.NumCPU())
 	enc.Encode(map[string]any{"volume_stats": map[string]int{"passed": passed, "failed": failed}})
 	pars := []int{1, 2, 3, 4, 7}
+	// mode 4: sum over reference-typed accumulators (preloaded input, real scheduler)
+	for n := 0; n <= 12; n++ {
+		for _, par := range pars {
+			for kind := 0; kind < kinds; kind++ {
+				xs := make([]int, n)
+				for i := range xs {
+					xs[i] = value(mSum, i, kind, rng)
+				}
+				emit(&Case{Monoid: mSum, Par: par, Mode: 4, Input: xs})
+			}
+		}
+	}
 	for code := 0; code < nMonoids; code++ {
 		for n := 0; n <= 12; n++ {
 			for _, par := range pars {
